@@ -684,7 +684,7 @@ pub mod abi_sweep {
         let fd: &'static a10::AsyncFd = if use_direct { w.env.as_ref().unwrap().dfd.unwrap() } else { w.env.as_ref().unwrap().fd };
         let raw_fd: i64 = crate::ops::raw_of(fd);
         let fixed = if use_direct { u64::from(IOSQE_FIXED_FILE) } else { 0 };
-        let which = rng.below(33);
+        let which = rng.below(37);
         let mut exp: Expect = Vec::new();
         let mut strings: Vec<(&'static str, Vec<u8>, Box<dyn Fn(&Sqe) -> u64>)> = Vec::new();
         let mut name: &'static str = "?";
@@ -1004,6 +1004,36 @@ pub mod abi_sweep {
                     Err(e) => Outcome::err(&e),
                 };
                 if recv { iter_op(fd.multishot_recv(pool), |it, cx| it.poll_next(cx), map) } else { iter_op(fd.multishot_read(pool), |it, cx| it.poll_next(cx), map) }
+            }
+            28 => {
+                name = "pipe";
+                let direct = rng.chance(1, 2);
+                exp.push(field("opcode", u64::from(OP_PIPE), |s| u64::from(s.opcode())));
+                exp.push(field("pipe_flags", if direct { 0 } else { libc::O_CLOEXEC as u64 }, |s| u64::from(s.op_flags())));
+                exp.push(field("file_index", if direct { u64::from(FILE_INDEX_ALLOC) } else { 0 }, |s| u64::from(s.file_index())));
+                exp.push(field("flags (exactly)", 0, |s| u64::from(s.flags())));
+                let f = a10::pipe::pipe(sq.clone());
+                let f = if direct { f.kind(Kind::Direct) } else { f };
+                fut_op(f, |r: std::io::Result<[a10::AsyncFd; 2]>| match r {
+                    Ok([a, b]) => {
+                        let mut o = Outcome::ok(0);
+                        o.afds.push(a);
+                        o.afds.push(b);
+                        o
+                    }
+                    Err(e) => Outcome::err(&e),
+                })
+            }
+            29 | 30 => {
+                let peer = which == 30;
+                name = if peer { "peer_addr" } else { "local_addr" };
+                exp.push(field("opcode", u64::from(OP_URING_CMD), |s| u64::from(s.opcode())));
+                exp.push(field("fd", raw_fd as u64, |s| s.fd() as u64));
+                exp.push(field("cmd_op", u64::from(SOCKET_URING_OP_GETSOCKNAME), |s| s.off() & 0xffff_ffff));
+                exp.push(field("peer (optlen)", u64::from(peer), |s| u64::from(s.file_index())));
+                exp.push(field("address length given", 28, |s| unsafe { u64::from(rd_u32(s.addr3())) }));
+                exp.push(field("flags (exactly)", fixed, |s| u64::from(s.flags())));
+                if peer { fut_op(fd.peer_addr::<std::net::SocketAddr>(), unit) } else { fut_op(fd.local_addr::<std::net::SocketAddr>(), unit) }
             }
             27 => {
                 name = "recv_from_pool";
